@@ -608,7 +608,13 @@ class Interp:
             op = _BIN.get(type(s.op))
             if op is None:
                 raise AnalysisError(f"model: operator in `{txt(s)}`")
-            self.assign(s.target, self._try(op, cur, v), *env)
+            if isinstance(s.op, ast.Add) and isinstance(cur, list):
+                # `lst += it` extends the object in place (every alias of
+                # the list sees the new items), then re-binds the target
+                new = self._try(operator.iadd, cur, v)
+            else:
+                new = self._try(op, cur, v)
+            self.assign(s.target, new, *env)
         elif isinstance(s, ast.If):
             if self.truth(self.ev(s.test, *env)):
                 self.block(s.body, *env)
